@@ -4,7 +4,9 @@ Deciding method
   * Coq theorems (coq/theories/Properties/C13.v) about C13.Model, for ALL device counts D > 0, all
     numbers of statistics N, all per-item functions: padding -N % D, batch/unbatch round trip,
     pmap pipeline == map f, padding never selected, index layout, sharded padding / slices, and the
-    shape effect of the bare jnp.squeeze (squeeze_safe + squeeze_safe_refuted, finding D9).
+    shape effect of jnp.squeeze: explicit axes preserve every item shape (squeeze_axis0_safe, the
+    code after "fix: unbatch squeezes only the two batching axes"), the former bare squeeze only
+    shapes without unit dims (squeeze_safe + squeeze_safe_refuted, finding D9).
   * Tie (i): the REAL distributed_shampoo.batch()/unbatch() on tagged arrays, exhaustively for
     N <= 40, D <= 8 (divisible and non-divisible counts, several item shapes incl. unit dims),
     against the model evaluated by Coq's vm_compute (exact integers).
@@ -122,7 +124,7 @@ def e2e_cases(ctx):
           block, shapes = 8, make_tree(rng, N, False)
       for Ds in Dsets:
         seed = rng.next() % (1 << 31)
-        roots = ["surrogate"] + (["real"] if (not quick or (i + modes.index(mode)) % 3 == 0) else [])
+        roots = ["surrogate"] + (["real"] if (i + modes.index(mode)) % (3 if quick else 2) == 0 else [])
         for root in roots:
           # surrogate runs: beta2 = 1 so that the statistics update S + G G^T contains no
           # multiply-add that XLA may or may not contract into an FMA depending on the program
@@ -524,18 +526,26 @@ def run(ctx):
         actual={k: len(v) for k, v in codes.items()}, theorem_or_check="correspondence chk_unbatch"),
         no_input=True)
   if d9_present:
+    # /repo carries the repair (fix: unbatch squeezes only the two batching axes); seeing the bare
+    # squeeze again is a regression of the shape clause (c13_squeeze_axis0_safe), reported with the
+    # concrete unit-dim input unless an open known finding covers it.
     text = ("%s unbatch()'s bare jnp.squeeze drops unit dims of the items: 1x1 statistics come back "
             "0-dimensional (Coq witness c13_squeeze_safe_refuted; real unbatch on %d unit-dim cases; "
-            "optimizer with only 1x1 statistics: %s) -- identical on every device count, so the "
-            "device-invariance statement itself is not contradicted" % (
+            "optimizer with only 1x1 statistics: %s)" % (
                 D9_ID, len(codes["1"]),
                 state.get("d9_e2e", {}).get("exc", "runs" if state.get("d9_e2e_absent") else "not probed")))
     if known_by_id(known, D9_ID):
       ctx.known(text)
     else:
-      ctx.notes.append("finding (not in known_findings.json, see proposed_findings/C13.json): " + text)
+      c0 = codes["1"][0]
+      ctx.violation("impl-violates", dict(
+          input=c0, expected="unbatch() returns every item with its own shape %s (explicit-axis "
+          "squeeze, theorem c13_squeeze_axis0_safe)" % (c0["shape"],),
+          actual=text, end_to_end=state.get("d9_e2e"),
+          theorem_or_check="c13_squeeze_axis0_safe / c13_squeeze_safe_refuted (finding D9)"))
   else:
-    ctx.notes.append("D9 (bare squeeze) does not reproduce: unbatch follows the explicit-axis model")
+    ctx.notes.append("unbatch follows the explicit-axis model on all %d unit-dim cases (D9 repaired)" % (
+        len(codes.get("2", []))))
   ctx.cov["real_root_runs_bitwise_equal_to_D1"] = state["real_bitwise"]
   if state["ulp_cases"]:
     worst = max(x["float_rel"] for x in state["ulp_cases"])
@@ -566,6 +576,8 @@ def replay(ctx, rec):
     verdicts = judge_list(ctx, res, state)
     if c["kind"] == "unbatch" and has_unit(c["shape"]):
       print("unit-dim variant code (1 = bare squeeze / D9, 2 = explicit axis):", list(state["squeeze_codes"]))
+      if "1" in state["squeeze_codes"]:
+        verdicts.append(("impl-violates", dict(actual="bare squeeze: unit dims of the items dropped (D9)")))
   else:
     res = run_e2e_cases(ctx, [c], tag="replay")
     verdicts = judge_e2e(ctx, res[0], state)
